@@ -45,6 +45,14 @@ def catalogue(rng):
         ("observe_on(observe_on(cold))", ["op", "observe_on", [], ["op", "observe_on", [], cold]], 0, None),
         ("retry(observe_on(error))", ["op", "retry", [2], ["op", "observe_on", [], err]], 0, None),
         ("delay(take(interval))", ["op", "delay", [3], ["op", "take", [k], iv]], d + 3, None),
+        # a source that would be subscribed AFTER the subscription has already ended (the synchronous first source ends it): no thread may start
+        ("switch_on_next(just,interval)", ["op", "switch_on_next", [], ["just", 1], iv], d, None),
+        ("switch_on_next(empty,timer)", ["op", "switch_on_next", [], ["empty"], ["timer", d]], d, None),
+        ("concat(error,interval)", ["op", "concat", [], ["error", 5], iv], d, None),
+        # an operator that has all it needs while BOTH its thread-backed inputs are still running: the first pair already differs
+        ("sequence_equal(interval,interval+1)", ["op", "sequence_equal", [], iv, ["op", "map", [["add", 1]], ["interval", d + 1]]], d + 1, None),
+        ("contains(interval)", ["op", "contains", [1], iv], d, None),
+        ("all(interval)", ["op", "all", [["lt", 1]], iv], d, None),
     ]
     return out
 
